@@ -87,7 +87,7 @@ impl Serialize for HugeVariant { fn serialize<S: serde::Serializer>(&self, s: S)
 pub fn run(ctx: &mut Ctx) {
     ctx.runner = "RunC16".into();
     ctx.shard_size = 400;
-    ctx.rule = "adversarial pool per policed spot, every call under catch_unwind (overflow checks on) with a 5 s limit: i32/i64/i128 extremes (MIN, MIN+1, -1, 0, 1, MAX-1, MAX) stored in Date32/Date64/Time32/Time64/Timestamp(4 units, none/UTC)/Duration(4 units)/Decimal128(precision 1/38 x scale -128/-1/0/1/127) read as strings and through deserialize_any; FixedSizeBinary(0) and FixedSizeList(_, 0) through to_marrow / to_arrow / to_record_batch / ArrayBuilder / from_marrow; tuples and tuple structs shorter and longer than the struct; span strings with 10^19-week components, 31-digit fractions, i64 extremes in every unit; Decimal128 with precision 0/39/255 and scale +-128 written from strings and floats; empty, 127- and 128-variant unions; recursive, mutually recursive, 25-deep and empty types through from_type with budgets 0/1/100/10000; inconsistent serde call sequences (value without key, extra values, key without value, non-string key, tuple longer than announced, struct field twice, sequence shorter than announced) through to_marrow, ArrayBuilder, from_samples; unit variants with index 10^6. Non-trivial: all; distinct by (group, input, outcome)".into();
+    ctx.rule = "adversarial pool per policed spot, every call under catch_unwind (overflow checks on) with a 5 s limit: i32/i64/i128 extremes (MIN, MIN+1, -1, 0, 1, MAX-1, MAX) stored in Date32/Date64/Time32/Time64/Timestamp(4 units, none/UTC)/Duration(4 units)/Decimal128(precision 1/38 x scale -128/-1/0/1/127) read as strings and through deserialize_any; FixedSizeBinary(0) and FixedSizeList(_, 0) through to_marrow / to_arrow / to_record_batch / ArrayBuilder / from_marrow; tuples and tuple structs shorter and longer than the struct; span strings with 10^19-week components, 31-digit fractions, i64 extremes in every unit; Decimal128 with precision 0/39/255 and scale +-128 written from strings and floats; empty, 127- and 128-variant unions; recursive, mutually recursive, 25-deep and empty types through from_type with budgets 0/1/100/10000; inconsistent serde call sequences (value without key, extra values, key without value, non-string key, tuple longer than announced, struct field twice, sequence shorter than announced) through to_marrow, ArrayBuilder, from_samples; unit variants with index 10^6; reused ArrayBuilders: every leaf type (38) below every kind of parent, three batches of valid rows with an empty build in between, via to_marrow and to_arrow. Non-trivial: all; distinct by (group, input, outcome)".into();
     // 1. extremes read as strings
     let i32s = [i32::MIN, i32::MIN + 1, -1, 0, 1, i32::MAX - 1, i32::MAX];
     let i64s = [i64::MIN, i64::MIN + 1, -1, 0, 1, i64::MAX - 1, i64::MAX, -62135596800000, 253402300800000, 8210298412799999];
@@ -178,6 +178,30 @@ pub fn run(ctx: &mut Ctx) {
     // 9. variant indices far beyond any declared variant
     for idx in [200u32, 1_000_000] {
         attempt(ctx, "huge_variant_index:from_samples", format!("unit variant with index {}", idx), || Vec::<Field>::from_samples(&[Item(HugeVariant(idx))], TracingOptions::default().allow_null_fields(true)).map(|f| f.len()).map_err(|e| e.to_string()));
+    }
+    // reused builders: every leaf type below every kind of parent, three batches of valid rows (long and
+    // short values) through one ArrayBuilder with an empty build in between, through to_marrow and to_arrow
+    {
+        let mut rng = ctx.rng.fork();
+        for leaf in crate::c18::all_leaves() {
+            for parent in 0..8usize {
+                let Some((field, _)) = crate::c18::under_parent(parent, &leaf, true) else { continue };
+                let batches: Vec<Vec<crate::arrgen::Val>> = (0..3).map(|_| (0..4).map(|_| { let mut none = crate::arrgen::Inject { countdown: -1, what: None }; crate::arrgen::Val::Struct(vec![("c".to_string(), crate::arrgen::gen_val(&mut rng, &field, &mut none))], 0) }).collect()).collect();
+                for arrow in [false, true] {
+                    let f = field.clone(); let bs = batches.clone();
+                    attempt(ctx, "reused_builder", format!("{:?} via {}", field.data_type, if arrow { "to_arrow" } else { "to_marrow" }), move || {
+                        let mut b = serde_arrow::ArrayBuilder::from_marrow(std::slice::from_ref(&f)).map_err(|e| e.to_string())?;
+                        let mut total = 0usize;
+                        for (k, batch) in bs.iter().enumerate() {
+                            b.extend(batch).map_err(|e| e.to_string())?;
+                            if arrow { total += b.to_arrow().map_err(|e| e.to_string())?.len(); } else { total += b.to_marrow().map_err(|e| e.to_string())?.len(); }
+                            if k == 0 { let _ = b.to_marrow().map_err(|e| e.to_string())?; }   // an empty build
+                        }
+                        Ok(total)
+                    });
+                }
+            }
+        }
     }
 }
 
